@@ -210,6 +210,36 @@ def short_operator_strings():
     return out
 
 
+def graph_ok_disagreements(world):
+    """The hypothesis [graph_ok] of C05_eval_is_documented_set, checked for the fixture graph: on
+    workspace packages guppy's depends_on(a, b) must be "a = b or a reaches b along the direct
+    dependency edges".  The edges are read from the cargo metadata itself (resolve.nodes[].deps, all
+    packages, all dependency kinds) and closed here in plain Python -- independent of guppy."""
+    meta = json.load(open(os.path.join(vlib.REPO, "fixtures", "tests-workspace-metadata.json")))
+    direct = {n["id"]: [d["pkg"] for d in n["deps"]] for n in meta["resolve"]["nodes"]}
+
+    def reach(a):
+        seen, todo = {a}, [a]
+        while todo:
+            x = todo.pop()
+            for y in direct.get(x, []):
+                if y not in seen:
+                    seen.add(y)
+                    todo.append(y)
+        return seen
+
+    ids, out, strict = world["ids"], [], 0
+    for i, a in enumerate(ids):
+        ra = reach(a)
+        for j, b in enumerate(ids):
+            want = b in ra
+            strict += want and a != b
+            if bool(world["depends_on"][i][j]) != want:
+                out.append(dict(a=world["names"][i], b=world["names"][j], depends_on=world["depends_on"][i][j],
+                                closure_of_direct_edges=want))
+    return out, len(ids) ** 2, strict
+
+
 def run(tier, seed):
     chk = vlib.Check(PROP, tier, seed)
     gate = vlib.coq_gate(PROP)
@@ -227,6 +257,17 @@ def run(tier, seed):
         counters[name] = counters.get(name, 0) + 1
         if counters[name] <= 2:
             viols.append((kind, name, detail, no_input))
+
+    gbad0, gpairs, gstrict = graph_ok_disagreements(world)
+    chk.count("graph_ok_pairs", gpairs)
+    chk.count("graph_ok_strict_dependencies", gstrict)
+    if gstrict == 0:
+        bad("broken-obligation", "hyp:graph-ok", dict(error="fixture graph has no dependency edge: orientation not pinned"), True)
+    for b in gbad0[:2]:
+        bad("counterexample", "hyp:graph-ok", dict(
+            input=b, clause="deps(x) = crates x depends on (transitively, x included), rdeps(x) = crates depending on "
+                            "x: guppy's depends_on(a, b) must be the reflexive-transitive closure of the direct "
+                            "dependency edges of the cargo metadata, in that orientation"))
 
     def evaluate(tag, cases, queries):
         """cases: dict(text, tree (semantic, may be None), expected_fn(q) -> bool or None, default (text, tree) or None)"""
@@ -375,6 +416,8 @@ def run(tier, seed):
         chk.count("mismatch_" + k, v)
     chk.assumptions = [
         "regex and glob engines, guppy's depends_on are oracles (per-case tables from the real crates / fixture graph)",
+        "graph_ok (hypothesis of C05_eval_is_documented_set): guppy's depends_on = reflexive-transitive closure of the "
+        "direct dependency edges -- checked on every run for the fixture graph against the cargo metadata (hyp:graph-ok)",
         "package graph: the repository's fixture workspace (7 packages)",
         "EvalContext's default filter is modelled as a pair of functions (test / binary view)",
     ]
